@@ -55,6 +55,9 @@ def run_symbolic(ast, base, holes_hook=None, loop_bound=4, call_depth=4, max_pat
         except Unsupported as e:
             raise Undecided("unsupported: " + str(e))
         except RecursionError: out = ("resource", "python recursion")
+        except Cut as e:
+            # the path is cut by a bound (loop / call depth / steps): what it did BEFORE the cut is still what the chunk does
+            fk.cut_paths += 1; out = ("cut", str(e))
         return {"events": it.events, "outcome": out, "undeclared": list(it.undeclared_reads), "order_dependent": it.order_dependent,
                 "global_writes": dict(it.global_writes)}
     res = fk.explore(thunk)
